@@ -632,7 +632,7 @@ let cluster_dump (c : cluster) : string =
     Buffer.add_string b (Printf.sprintf " members=[%s]" (String.concat "," (List.sort compare ms)));
     Buffer.add_string b (Printf.sprintf " pending=%d" (List.length n.n_pending));
     Buffer.add_string b (Printf.sprintf " snap=[%s]"
-      (String.concat "," (List.map (fun (nm, r) -> sesc nm ^ ":" ^ (if r then "true" else "false")) n.n_snap)));
+      (String.concat "," (List.sort compare (List.map (fun (nm, r) -> sesc nm ^ ":" ^ (if r then "true" else "false")) n.n_snap))));
     let dbs = List.sort (fun (a, _) (b, _) -> compare a b) (List.map (fun (nm, d) -> (string_of_cl nm, d)) n.n_dbs) in
     List.iter (fun (nm, d) ->
       Buffer.add_string b (Printf.sprintf " db=%s strat=%s keys=[" (esc nm) (string_of_cl (strat_to_str d.d_strat)));
